@@ -642,7 +642,12 @@ class Subspace(IdealPoint):
 
         if model == Model.POINCARE:
             klein_basis = self.ideal_basis_coords(model=Model.KLEIN)
-            klein_midpoint = klein_basis.sum(axis=-2) / klein_basis.shape[-2]
+
+            # point of the affine span of the ideal basis closest to the origin
+            diffs = klein_basis[..., 1:, :] - klein_basis[..., :1, :]
+            coeffs = (klein_basis[..., :1, :] @ diffs.swapaxes(-1, -2) @
+                      utils.invert(diffs @ diffs.swapaxes(-1, -2)))
+            klein_midpoint = (klein_basis[..., :1, :] - coeffs @ diffs)[..., 0, :]
             poincare_midpoint = kleinian_to_poincare(klein_midpoint)
             poincare_extreme = utils.sphere_inversion(poincare_midpoint)
 
@@ -651,14 +656,15 @@ class Subspace(IdealPoint):
 
         elif model == Model.HALFSPACE:
             halfspace_basis = self.ideal_basis_coords(model=Model.HALFSPACE)
-            halfspace_midpoint = (halfspace_basis.sum(axis=-2) /
-                                  halfspace_basis.shape[-2])
 
-            #just use the first element of the basis
-            center = halfspace_midpoint
-            radius = np.sqrt(
-                utils.normsq(halfspace_basis[..., 0, :] - halfspace_midpoint)
-            )
+            # circumcenter of the ideal basis inside its affine span
+            diffs = halfspace_basis[..., 1:, :] - halfspace_basis[..., :1, :]
+            to_center = ((utils.normsq(diffs) / 2)[..., np.newaxis, :] @
+                         utils.invert(diffs @ diffs.swapaxes(-1, -2)) @
+                         diffs)[..., 0, :]
+
+            center = halfspace_basis[..., 0, :] + to_center
+            radius = np.sqrt(utils.normsq(to_center))
         else:
             raise GeometryError(
                 ("Cannot compute spherical parameters for an object of type {}"
